@@ -111,6 +111,15 @@ class _T:
         pass
 
 
+_SUB = {}
+
+
+def _subclass(base, name):
+    if name not in _SUB:
+        _SUB[name] = type("ModelEvent" + name, (base,), {})
+    return _SUB[name]
+
+
 def _mk_time(kind, t):
     if kind == "duration":
         from pydsol.core.units import Duration
@@ -122,7 +131,14 @@ def run_case(case, ctx):
     from pydsol.core.eventlist import EventListHeap
     from pydsol.core.simevent import SimEvent
     tgt = _T()
-    evs = [SimEvent(_mk_time(case["kind"], t), tgt, "m", p) for t, p in case["events"]]
+    # every third / fifth event is an instance of a model-defined SimEvent subclass (ids must stay unique and in
+    # creation order across classes)
+    classes = [SimEvent, _subclass(SimEvent, "A"), SimEvent, SimEvent, _subclass(SimEvent, "B")] if case["fam"] == "rnd" else [SimEvent]
+    evs = [classes[k % len(classes)](_mk_time(case["kind"], t), tgt, "m", p) for k, (t, p) in enumerate(case["events"])]
+    ids = [e.id for e in evs]
+    if len(set(ids)) != len(ids) or ids != sorted(ids):
+        ctx.viol("event-ids-not-unique-or-not-in-creation-order", {"ids": ids})
+        return
     # exact keys: Python compares int with float exactly; a Duration orders by its SI value
     key = {k: ((e.time if type(e.time) in (int, float) else float(e.time)), -e.priority, k) for k, e in enumerate(evs)}
     idx = {id(e): k for k, e in enumerate(evs)}
